@@ -21,6 +21,7 @@ CONSTANTS
   FactoryBuildsTwice = FALSE
   FirstInitErrorSwallowed = FALSE
   RepollAfterComplete = FALSE
+  AndThenFactorySequential = FALSE
 SPECIFICATION TSpec
 INVARIANTS Judge
 POSTCONDITION TraceAccepted
